@@ -80,6 +80,7 @@ def _wrun(arg):
         "skip": collections.Counter(),
         "st": collections.Counter(),
         "viol": [],
+        "keys": set(),
         "vcount": collections.Counter(),
         "samples": [],
         "err": None,
@@ -99,6 +100,8 @@ def _wrun(arg):
                 out["nth"].append(_case_hash(case))
             if len(out["samples"]) < 2:
                 out["samples"].append({"case": _jsonable(case), "outcome": _jsonable(r.get("o"))})
+        if r.get("keys"):
+            out["keys"].update(r["keys"])
         o = r.get("o")
         if o is not None:
             if len(out["outcomes"]) < 5000 or o in out["outcomes"]:
@@ -166,6 +169,7 @@ class Agg:
         self.skip = collections.Counter()
         self.st = collections.Counter()
         self.viol = []
+        self.keys = set()  # union of per-case "keys" (e.g. distinct explored states)
         self.vcount = collections.Counter()
         self.vkept = collections.Counter()
         self.samples = []
@@ -202,7 +206,7 @@ def run_module(modname, tier, seed, replay=None):
         pool = None
     else:
         ctx = mp.get_context("fork")
-        pool = ctx.Pool(nproc, initializer=_winit, initargs=(modname,))
+        pool = ctx.Pool(nproc, initializer=_winit, initargs=(modname,), maxtasksperchild=plan.get("maxtasksperchild"))
         results = pool.imap_unordered(_wrun, ((i, c, want_hash) for i, c in _chunks(cases, chunk)))
     try:
         for out in results:
@@ -219,6 +223,7 @@ def run_module(modname, tier, seed, replay=None):
                     agg.st[k] = max(agg.st[k], v)
                 else:
                     agg.st[k] += v
+            agg.keys.update(out["keys"])
             agg.vcount.update(out["vcount"])
             for v in out["viol"]:
                 k = v.get("_key")
